@@ -238,7 +238,7 @@ C11_effect(g, t, o) == Acts(g, t, o) =>
   /\ o.op = "Call" => /\ t.P[i].wager = ToMatch(t)
                       /\ t.P[i].wager <= Max2(ToMatch(g), g.meta.bb)
                       /\ (t.P[i].wager >= ToMatch(g) \/ t.P[i].stack = 0)
-  /\ (o.op = "Bet" /\ 0 < o.x /\ o.x < g.P[i].stack) => (ToMatch(t) = o.x /\ t.P[i].wager = o.x /\ t.cw = o.x)
+  /\ (o.op = "Bet" /\ 0 < o.x /\ o.x < g.P[i].stack) => (ToMatch(t) = o.x /\ t.P[i].wager = o.x)
   /\ o.op = "Allin" => (t.P[i].wager = g.P[i].init /\ t.P[i].stack = 0)
 
 (* C12 - raise sizes obey the minimum-raise rule; amounts cannot corrupt    *)
@@ -266,7 +266,7 @@ Blind(g, i) == LET m == g.meta IN
 HasBlinds(g) == g.meta.bb > 0 \/ g.meta.sb > 0 \/ g.meta.dealerBlind > 0
 C13_ante(g, t, o) == (o.op = "PayAnte" /\ o.ok /\ t.n = g.n) =>
   /\ \A i \in Seats(t) : t.P[i].pot = Min2(g.meta.ante, g.P[i].bankroll) /\ t.P[i].wager = 0
-  /\ t.cw = 0 /\ t.roundPot = 0
+  /\ t.cw = 0
 \* before the first betting round: the state in which the engine waits for "ready" on preflop
 \* with the blinds behind it (also reached when the engine skips the blind phase)
 BlindsBehind(g, t, o) == t.round = "preflop" /\ t.ev = "ReadyRequested" /\ (g.round # "preflop" \/ g.ev # "ReadyRequested") /\ o.ok /\ t.n = g.n
